@@ -45,13 +45,11 @@ def check_tree(ctx, nodes, par, ch, case, starts=None):
             ctx.count("mon.C05.sequence")
             it = itcls(nodes[s])
             if iter(it) is not it:
-                ctx.violation("C05/protocol/%s" % nm, "iterator-protocol", dict(case, start=s), expected="iter(it) is it", observed="different object")
-                ok = False
+                ctx.count("C05.info.iter_returns_other_object")  # not part of the statement: recorded, not judged
             got = list(it)
             ctx.count("C05.protocol")
             if list(it) != []:
-                ctx.violation("C05/protocol-exhausted/%s" % nm, "iterator-protocol", dict(case, start=s), expected="exhausted iterator stays exhausted", observed="yields again")
-                ok = False
+                ctx.count("C05.info.reiterable")  # not part of the statement: recorded, not judged
             if nm in ("group", "zigzag"):
                 if any(type(g) is not tuple for g in got):
                     obs = "non-tuple group"
@@ -131,7 +129,7 @@ def histories(ctx):
         rng = ctx.rng("hist", h)
         fam = TR.READ_FAMILIES[h % len(TR.READ_FAMILIES)]
         k = rng.randint(4, 10)
-        for nodes, par, ch, case in TR.evolving_universe(ctx, rng, fam, k, rng.randint(4, 20)):
+        for nodes, par, ch, case in TR.evolving_universe(ctx, rng, fam, k, rng.randint(4, 20), fault_rate=(0.3 if h % 2 else 0.0)):
             starts = [rng.randrange(k) for _ in range(3)] + [i for i in range(k) if par[i] is None][:2]
             for s in starts:
                 ctx.case(("hist", h, len(case["history"]), s), nontrivial=bool(ch[s]))
